@@ -81,7 +81,8 @@ def describe(tier):
                             pools='typed by parameter name: ints, bitstring-likes, token strings incl. malformed, positions incl. ranges/generators, bools, dtypes, numbers, iterables, streams',
                             deviation='all argument tuples with <= 1 adversarial argument; <= 2 for %s' % ('methods with <= 4 parameters' if q else 'every method'),
                             states='empty, 1 bit, 9 bits, 16 bits at pos 5, file-backed (length-limited), a truncated exp-Golomb code x msb0 / lsb0',
-                            sequences='second call from a 12-call core battery after every first call of the 9-bit state' + ('' if q else '; third call from the battery'),
+                            sequences=('second call from a 12-call core battery after every first call of the 9-bit state whose later arguments are at their defaults' if q else
+                                       'second call from the core battery (12-21 calls) after EVERY first call of every non-empty state; third call from the battery'),
                             excluded='assigning to read-only properties of immutable classes; private names; arguments that would allocate > 2**27 bits'),
                 rule='each generated (object state, call) executed once on a fresh object; non-trivial = the call is accepted (succeeds); rejections are judged for their exception class; '
                      'after every call the post-conditions are evaluated on all involved objects',
@@ -369,7 +370,7 @@ def methods(bs, acc, ctx, shard):
             problem = problem or witness(bs, ns)
             judge(acc, op, src, pre, obs_, problem, group=name)
             # depth 2 (and 3): follow with the core battery on the same object
-            if stname == 'nine' and problem is None and all(a == d for a, d in zip(args[1:], [pool(name, p[0])[0] for p in params][1:])):
+            if (stname == 'nine' if q else stname != 'empty') and problem is None and (not q or all(a == d for a, d in zip(args[1:], [pool(name, p[0])[0] for p in params][1:]))):
                 battery = CORE_BATTERY + (CORE_STREAM if 'Stream' in cls else []) + (CORE_MUT if cls in ('BitArray', 'BitStream') else [])
                 for b2 in battery:
                     try:
